@@ -22,7 +22,10 @@ type c08Case struct {
 	Cont   []string `json:"continuation"`
 }
 
-var c08Derivations = []string{"cur+maxage", "cur+origin+badmethod", "cur+origins+status", "cur+origin+badorigin", "cur-reversed+origin+badheader", "cur+pna-both"}
+var c08Derivations = []string{"cur+maxage", "cur+origin+badmethod", "cur+origins+status", "cur+origin+badorigin", "cur-reversed+origin+badheader", "cur+pna-both",
+	// the current Config() with exactly one scalar field changed; whether that makes it invalid depends on the
+	// current configuration and is decided by NewMiddleware on a fresh value (state-independent by C04/C05)
+	"cur-tolerate-psl", "cur-tolerate-insecure", "cur+credentialed", "cur+pna", "cur+pna-nocors", "cur:status=199", "cur+star-response-header"}
 
 // c08Derive builds an invalid configuration that is a small edit of cur: the current origins (as a prefix),
 // near misses of the first pattern added (other scheme, another port, a sibling host), and one defect elsewhere.
@@ -81,6 +84,25 @@ func c08Derive(cur *cors.Config, how string) *cors.Config {
 	case "cur+pna-both":
 		c.Origins = append(c.Origins, extras[3])
 		c.PrivateNetworkAccess, c.PrivateNetworkAccessInNoCORSModeOnly = true, true
+	case "cur-tolerate-psl":
+		c.DangerouslyTolerateSubdomainsOfPublicSuffixes = false
+	case "cur-tolerate-insecure":
+		c.DangerouslyTolerateInsecureOrigins = false
+	case "cur+credentialed":
+		c.Credentialed = true
+	case "cur+pna":
+		c.PrivateNetworkAccess = true
+	case "cur+pna-nocors":
+		c.PrivateNetworkAccessInNoCORSModeOnly = true
+	case "cur:status=199":
+		c.PreflightSuccessStatus = 199
+	case "cur+star-response-header":
+		c.ResponseHeaders = append(c.ResponseHeaders, "*")
+	}
+	if strings.HasPrefix(how, "cur-") || strings.HasPrefix(how, "cur+credentialed") || strings.HasPrefix(how, "cur+pna") && how != "cur+pna-both" || how == "cur+star-response-header" {
+		if _, err := cors.NewMiddleware(c); err == nil {
+			return nil // this edit of this configuration is valid: nothing to check
+		}
 	}
 	return &c
 }
@@ -151,7 +173,7 @@ func c08Judge(k c08Case) *vlib.Failure {
 	if k.Derive != "" {
 		d := c08Derive(cfgBefore, k.Derive)
 		if d == nil {
-			return nil // passthrough: nothing to derive from
+			return nil // passthrough (nothing to derive from), or the edit leaves the configuration valid
 		}
 		bad, badText = *d, fmt.Sprintf("%s = %+v", k.Derive, *d)
 	}
